@@ -1111,6 +1111,12 @@ pub struct NameTree<T> {
 }
 impl<T: Object+DataSize> NameTree<T> {
     pub fn walk(&self, r: &impl Resolve, callback: &mut dyn FnMut(&PdfString, &T)) -> Result<(), PdfError> {
+        self.walk_limited(r, callback, MAX_TREE_DEPTH)
+    }
+    fn walk_limited(&self, r: &impl Resolve, callback: &mut dyn FnMut(&PdfString, &T), depth: usize) -> Result<(), PdfError> {
+        if depth == 0 {
+            bail!("name tree is too deep (or cyclic)");
+        }
         match self.node {
             NameTreeNode::Leaf(ref items) => {
                 for (name, val) in items {
@@ -1120,13 +1126,16 @@ impl<T: Object+DataSize> NameTree<T> {
             NameTreeNode::Intermediate(ref items) => {
                 for &tree_ref in items {
                     let tree = r.get(tree_ref)?;
-                    tree.walk(r, callback)?;
+                    tree.walk_limited(r, callback, depth - 1)?;
                 }
             }
         }
         Ok(())
     }
 }
+
+/// Name and number trees deeper than this are treated as malformed (the kids of a node may form a cycle).
+const MAX_TREE_DEPTH: usize = 32;
 
 impl<T: Object> Object for NameTree<T> {
     fn from_primitive(p: Primitive, resolve: &impl Resolve) -> Result<Self> {
@@ -1277,6 +1286,12 @@ impl<T: ObjectWrite> ObjectWrite for NumberTree<T> {
 }
 impl<T: Object+DataSize> NumberTree<T> {
     pub fn walk(&self, r: &impl Resolve, callback: &mut dyn FnMut(i32, &T)) -> Result<(), PdfError> {
+        self.walk_limited(r, callback, MAX_TREE_DEPTH)
+    }
+    fn walk_limited(&self, r: &impl Resolve, callback: &mut dyn FnMut(i32, &T), depth: usize) -> Result<(), PdfError> {
+        if depth == 0 {
+            bail!("number tree is too deep (or cyclic)");
+        }
         match self.node {
             NumberTreeNode::Leaf(ref items) => {
                 for &(idx, ref val) in items {
@@ -1286,7 +1301,7 @@ impl<T: Object+DataSize> NumberTree<T> {
             NumberTreeNode::Intermediate(ref items) => {
                 for &tree_ref in items {
                     let tree = r.get(tree_ref)?;
-                    tree.walk(r, callback)?;
+                    tree.walk_limited(r, callback, depth - 1)?;
                 }
             }
         }
